@@ -536,7 +536,7 @@ func (Prop) ID() string { return "C09" }
 func (Prop) Gen(seed int64, tier string) *harness.Case {
 	r := harness.Rand(seed)
 	g := &gen{r: r, budget: 8 + r.Intn(40)}
-	w := Work{Prog: g.stmts(gctx{}, 5)}
+	w := Work{Prog: g.stmts(gctx{inFunc: true}, 5)} // `return` is legal at top level too
 	if r.Intn(2) == 0 {
 		w.Tail = 1 + r.Intn(98)
 	}
@@ -758,7 +758,7 @@ func valid(w *Work) bool {
 		}
 		return true
 	}
-	return chk(w.Prog, gctx{})
+	return chk(w.Prog, gctx{inFunc: true})
 }
 
 func (Prop) Shrink(c *harness.Case) []*harness.Case {
